@@ -8,6 +8,33 @@ expressions additionally dump the raw index-level arrays before and after.
 
 gen_case drives a real model while generating, so that most operations are valid for the
 state they meet; run_case replays the JSON history from scratch.
+
+Coverage map (clause of C05 -> op kinds that reach it; every op is followed by the full dump):
+  adding variables                 add_var / add_vars (fresh, re-added consistent, re-added conflicting, bounds given / defaulted /
+                                   out of range), implicitly by set_obj_model, add_con_model, add_discrete_*, subst_self_loops, from_dqm
+  removing                         remove_var (present in all / some / no expression; with discrete constraints around), v_remove_variable
+                                   (one expression only), remove_con(cascade=True)
+  fixing                           fix_var, fix_vars (list / dict, inplace True / False, duplicates)
+  flipping, retyping               flip (BINARY and SPIN), change_vartype (all pairs incl. refused ones), spin_to_binary (inplace both ways)
+  relabelling variables            relabel_vars (fresh targets, swaps, cycles, collisions, unknown keys; inplace both ways)
+  setting the objective            set_obj_model (QM, BQM float64/float32/object), set_obj_iter (term iterables incl. bad terms),
+                                   from_dqm (native set_objective from a case-level BQM)
+  adding constraints               add_con_model via model / generic / comparison, copy=True and copy=False (moved: source checked empty),
+                                   add_con_iter, add_discrete_iter, add_discrete_model via model / comparison, from_dqm (one discrete
+                                   constraint per DQM variable), subst_self_loops (appended equalities); soft weight / penalty on all
+  removing / relabelling constr.   remove_con (cascade both ways, views of the removed constraint must die), relabel_cons
+  deep-copying                     deepcopy (continue on copy or on original; the other is frozen and re-dumped after every later op),
+                                   every inplace=False variant, from_dqm (old model frozen)
+  sense, rhs, weight, penalty,     part of every dump; set_weight, mark_discrete, fix/flip marker rules
+    discrete mark
+  type and bounds                  part of every dump; set_lb / set_ub, change_vartype resets
+  edits through views              v_add_linear, v_set_linear, v_add_quadratic (self-loops on INTEGER, refused on BINARY/SPIN/REAL),
+                                   v_remove_interaction, v_set_offset, on the objective and on constraints
+  self-loop substitution           subst_self_loops (self-loops in objective and / or constraints, several expressions sharing one
+                                   variable, no self-loop at all); REAL self-loops are an open finding and kept out of the random stream
+  emptying                         clear
+NOT reached here: from_bqm / from_qm (= cls() + set_objective, both reached), from_file / to_file / from_lp_file (C07 / C18),
+  iter_constraint_data / violations / check_feasible (C09), view.set_quadratic (raises NotImplementedError by design).
 """
 import copy
 from fractions import Fraction
@@ -95,6 +122,25 @@ def _build_model(desc):
     return gen.build_qm(desc)
 
 
+def case_label(v, c):
+    return f"{v}.{c}"
+
+
+def build_dqm(d):
+    try:
+        dq = dimod.DiscreteQuadraticModel()
+        for lab, k in zip(d["labels"], d["cases"]):
+            dq.add_variable(k, label=lab)
+        for v, c, b in d["lin"]:
+            dq.set_linear_case(d["labels"][v], c, float(F(b)))
+        for u, cu, v, cv, b in d["quad"]:
+            dq.set_quadratic_case(d["labels"][u], cu, d["labels"][v], cv, float(F(b)))
+        dq.offset = float(F(d["off"]))
+        return dq
+    except Exception as e:  # noqa
+        raise SkipOp(str(e))
+
+
 def terms_of(ts):
     return [tuple(t[:-1]) + (float(F(t[-1])),) for t in ts]
 
@@ -108,6 +154,7 @@ class Ctx:
         self.fail = None
         self.frozen = []       # (model, dump at freeze time, why)
         self.mstep = None      # extra info for the index-level replay of this op
+        self.extra = None      # what the call returned, when the specification needs it (substitute_self_loops)
         self.hazards = []
 
     def freeze(self, m, why):
@@ -304,6 +351,21 @@ def apply_op(cqm, op, ctx, marks):
         cqm.constraints[op[1]].lhs.mark_discrete(bool(op[2]))
         if op[2]:
             marks.add(op[1])
+    elif k == "clear":
+        cqm.clear()
+    elif k == "from_dqm":
+        # a classmethod: the history continues on the NEW model, the old one must stay as it is
+        dq = build_dqm(op[1])
+        r = dimod.ConstrainedQuadraticModel.from_discrete_quadratic_model(dq, relabel_func=case_label)
+        ctx.freeze(cqm, "model left behind by from_discrete_quadratic_model")
+        return r
+    elif k == "subst_self_loops":
+        ctx.extra = []
+        if any(u == v and cqm.vartype(u) is dimod.REAL
+               for e in [cqm.objective] + [cqm.constraints[l].lhs for l in cqm.constraints] for u, v in e.quadratic):
+            ctx.hazards.append("subst_self_loops_real")
+        mapping = cqm.substitute_self_loops()
+        ctx.extra = [[u, new] for u, new in mapping.items()]
     elif k == "deepcopy":
         other = copy.deepcopy(cqm)
         if dump(other) != dump(cqm):
@@ -535,7 +597,20 @@ OPS = [("add_var", 6), ("add_vars", 2), ("remove_var", 9), ("fix_var", 8), ("fix
        ("add_discrete_model", 2), ("set_weight", 3), ("remove_con", 4), ("relabel_cons", 3), ("set_lb", 2),
        ("set_ub", 2), ("v_add_linear", 4), ("v_add_quadratic", 4), ("v_set_linear", 2),
        ("v_remove_variable", 6), ("v_remove_interaction", 2), ("v_set_offset", 3), ("mark_discrete", 1),
-       ("deepcopy", 3)]
+       ("deepcopy", 3), ("subst_self_loops", 2), ("clear", 1), ("from_dqm", 1)]
+
+
+def rand_dqm_op(rng):
+    n = rng.randint(1, 3)
+    labels = rng.sample(['a', 'b', 'c', 'd', 0, 1, 2, 'k', 'c0'], n)
+    cases = [rng.choice([1, 2, 2, 3]) for _ in range(n)]
+    lin = [[v, c, dy(rng)] for v in range(n) for c in range(cases[v]) if rng.random() < 0.6]
+    quad = []
+    if n >= 2:
+        for _ in range(rng.randint(0, 4)):
+            u, v = rng.sample(range(n), 2)
+            quad.append([u, rng.randrange(cases[u]), v, rng.randrange(cases[v]), '0' if rng.random() < 0.1 else dy(rng)])
+    return ["from_dqm", {"labels": labels, "cases": cases, "lin": lin, "quad": quad, "off": dy(rng) if rng.random() < 0.5 else '0'}]
 
 
 def rand_target(rng, cqm):
@@ -726,6 +801,25 @@ def gen_op(rng, cqm):
         return ["mark_discrete", pick_con(rng, cqm), rng.random() < 0.7]
     if k == "deepcopy":
         return ["deepcopy", rng.choice(["copy", "orig"])]
+    if k == "subst_self_loops":
+        ints = [v for v in cqm.variables if cqm.vartype(v) is dimod.INTEGER]
+        if not ints:
+            return None
+        exprs = [cqm.objective] + [cqm.constraints[l].lhs for l in cqm.constraints]
+        if any(u == v and cqm.vartype(u) is dimod.REAL for e in exprs for u, v in e.quadratic):
+            # open finding (reported): a REAL self-loop, which the term iterables accept, makes substitute_self_loops
+            # raise ValueError after it has already added the new variable; the case is kept as
+            # corpus/C05/subst_self_loops_real.json, the random stream stays clear of it
+            return None
+        if not any(u == v for e in exprs for u, v in e.quadratic) and rng.random() < 0.75:
+            # prepare the ground: a self-loop in the objective or in one constraint (the next draws may add more)
+            u = rng.choice(ints)
+            return ["v_add_quadratic", rand_target(rng, cqm), u, u, str(rng.choice([1, 2, -1, 3]))]
+        return ["subst_self_loops"]
+    if k == "clear":
+        return ["clear"] if rng.random() < 0.5 else None
+    if k == "from_dqm":
+        return rand_dqm_op(rng) if rng.random() < 0.5 else None
     return None
 
 
@@ -890,6 +984,26 @@ class R:
             return f"(MarkDiscrete {self.c(op[1])} {cbool(op[2])})"
         if k == "deepcopy":
             return "Nop"
+        if k == "clear":
+            return "Clear"
+        if k == "from_dqm":
+            d = op[1]
+            L = d["labels"]
+            names = [[case_label(L[v], c) for c in range(k_)] for v, k_ in enumerate(d["cases"])]
+            vs = clist([f"(mkV {self.v(x)} BINARY {cq(F(0))} {cq(F(1))})" for row in names for x in row])
+            lin = {x: F(0) for row in names for x in row}
+            for v, c, b in d["lin"]:
+                lin[names[v][c]] = F(b)                      # set_linear_case: the last write wins
+            quad = {}
+            for u, cu, v, cv, b in d["quad"]:
+                quad[frozenset((names[u][cu], names[v][cv]))] = (names[u][cu], names[v][cv], F(b))
+            linc = clist([cpair(self.v(x), cq(b)) for x, b in lin.items()])
+            quadc = clist([f"({self.v(a)}, {self.v(b_)}, {cq(x)})" for a, b_, x in quad.values()])
+            groups = clist([cpair(self.c(L[v]), clist([self.v(x) for x in names[v]])) for v in range(len(L))])
+            return f"(FromDqm (mkDesc {vs} {linc} {quadc} {cq(F(d['off']))}) {groups})"
+        if k == "subst_self_loops":
+            mp = op[1] if len(op) > 1 and op[1] else []
+            return f"(SubstSelfLoops {clist([f'({self.v(u)}, {self.v(n)}, {self.c(n)})' for u, n in mp])})"
         raise RuntimeError(k)
 
     def snap(self, d):
@@ -975,7 +1089,8 @@ def run_case(case):
         py_fail = py_fail or ctx.fail or d["bad"]
         if bucket(exc) == "XOther":
             py_fail = py_fail or f"unexpected exception class {type(exc).__name__}: {exc} in {op[0]}"
-        steps.append(f"({rd.op(op)}, {bucket(exc)}, {rd.snap(d)})")
+        rop = op + [ctx.extra] if op[0] == "subst_self_loops" else op
+        steps.append(f"({rd.op(rop)}, {bucket(exc)}, {rd.snap(d)})")
         if ctx.mstep is not None and (exc is None or ctx.mstep["kind"][0] == "move"):
             after = rawdump(cqm2)
             ms = ctx.mstep
@@ -1012,6 +1127,8 @@ def run_case(case):
                 energy.append(f"({coq_obs(gen.observe(e), rd.T)}, {sm}, {cq(F(en))})")
     # regions where defects were found and repaired (kept as a coverage statistic only)
     feats["touches_repaired_region"] = bool(hazards)
+    if "subst_self_loops_real" in hazards:
+        feats["subst_self_loops_real"] = True
     n = len(rd.T)
     coq = f"(mkCase {cnat(n)} {clist(steps)} {clist(msteps)} {clist(energy)})"
     return {"coq": coq, "check_fn": "check", "py_fail": py_fail, "features": feats,
